@@ -43,14 +43,21 @@ def main(tier):
     flatten(graphs, os.path.join(d, 'enum.txt'))
     nrand = 300 if quick else 3000
     V.run([hs, 'gen', str(nrand), str(V.seed()), os.path.join(d, 'rand.txt'), '40'], check=True)
-    V.run([hs, 'gen', str(30 if quick else 400), str(V.seed() + 7), os.path.join(d, 'big.txt'), '100' if quick else '300'], check=True)
+    V.run([hs, 'gen', str(30 if quick else 120), str(V.seed() + 7), os.path.join(d, 'big.txt'), '100' if quick else '200'], check=True)
+    # the result matrices of big graphs are large: at most 30 graphs per record file (TLC parses the file once per worker)
+    big = open(os.path.join(d, 'big.txt')).read().splitlines()
+    parts = []
+    for i in range(0, len(big), 30):
+        nm = 'big%d' % (i // 30)
+        open(os.path.join(d, nm + '.txt'), 'w').write('\n'.join(big[i:i + 30]) + '\n')
+        parts.append((nm, 1))
     total = nontriv = special = 0
-    for name, chunk in (('enum', 200), ('rand', 10), ('big', 1)):
+    for name, chunk in [('enum', 200), ('rand', 10)] + parts:
         rf = os.path.join(d, name + '.json')
         rc, out = V.run([hs, 'recs', os.path.join(d, name + '.txt'), rf, str(chunk)], timeout=1800)
         if rc != 0:
             raise V.Broken('h_sp failed: ' + out[-2000:])
-        r = V.tlc(SPT, cfg(d, 'recs', 'Spec', 1, 0), env={'SPRECS': rf}, timeout=3000, cont=True, mem='16g')
+        r = V.tlc(SPT, cfg(d, 'recs', 'Spec', 1, 0), env={'SPRECS': rf}, timeout=3000, cont=True, mem='24g', workers=8 if name.startswith('big') else None)
         ev.add_tlc('records %s' % name, r)
         recs = json.load(open(rf))['recs']
         total += len(recs)
